@@ -2597,6 +2597,8 @@ package sftp
 //@   requires connOK(c)
 //@   update after call (time.Time).Unix#1: ghost.t1 = ret
 //@   update after call (time.Time).Unix#2: ghost.t2 = ret
+//@   assert before call (time.Time).Unix#1: arg0 == atime
+//@   assert before call (time.Time).Unix#2: arg0 == mtime
 //@   assert before call (*Client).setstat#1: arg1 == path && arg2 == sshFileXferAttrACmodTime && attrs.Atime == uint32(ghost.t1) && attrs.Mtime == uint32(ghost.t2)
 // (the first word of the time pair is the access time, the second the modification time, as in the draft's ATTRS block;
 //  the two Unix() calls are those of atime and mtime in this order)
